@@ -66,7 +66,7 @@ def scenarios(tier, seed):
     # comparisons never ended on backward steps)
     for base_m in ["ABAS5O6H"] + (["BABS9O7H"] if thorough else []):
         for (a, b) in ((0.0, 2.0), (2.0, 0.0), (-1.0, -3.0)):
-            sc = gen.base({"rich": base_m, "levels": 2}, a, b, 0.05, rtol=1e-6, atol=1e-6, dense=(a > b), budget=400000)
+            sc = gen.base({"rich": base_m, "levels": 2}, a, b, 0.05, rtol=1e-6, atol=1e-6, dense=(a > b), budget=400000, wall_limit=60.0)
             sc["ops"] = [{"op": "integrate", "t": a + (b - a) * 0.5}, {"op": "integrate"}]
             scs.append(sc)
     # dtypes
